@@ -13,7 +13,8 @@ package payment
 
 //@ func (*App).ValidTransition
 //@   requires from != nil && to != nil && typeof(to.Data) == typetag("*channel.noData")
-//@   requires validAlloc(from.Allocation) && validAlloc(to.Allocation) && len(from.Balances) == len(to.Balances) && nonNilBalances(from.Balances) && nonNilBalances(to.Balances)
+//@   requires validAlloc(from.Allocation) && validAlloc(to.Allocation) && len(from.Balances) == len(to.Balances) && len(from.Balances[0]) == len(to.Balances[0])
+//@   requires nonNilBalances(from.Balances) && nonNilBalances(to.Balances)
 //@   ensures result == nil <==> payOK(from, to, actor)
 //@   loop 1
 //@     invariant forall k, j int :: 0 <= k && k < $i && 0 <= j && j < len(from.Balances[k]) ==>
@@ -21,3 +22,9 @@ package payment
 //@   loop 2
 //@     invariant 0 <= i && i < len(from.Balances) && asset == from.Balances[i] && forall l int :: 0 <= l && l < $i ==>
 //@       (l == actor ==> val(asset[l]) >= val(to.Balances[i][l])) && (l != actor ==> val(asset[l]) <= val(to.Balances[i][l]))
+
+// Any valid allocation forms a valid initial payment state (the data type is checked by assertNoData, which panics otherwise;
+// State.Decode creates the data value with the channel app's NewData, so a decoded payment state carries NoData).
+//@ func (*App).ValidInit
+//@   requires s != nil && typeof(s.Data) == typetag("*channel.noData")
+//@   ensures result == nil
